@@ -70,6 +70,9 @@ def _other_end(P, S):
 def illegal_effect(P, S, a, S2, ev, agent):
     out = []
     P.hit("illegal_ignored")
+    r, c = _agent(S)
+    nr, nc = r + MOVES[int(a)][0], c + MOVES[int(a)][1]
+    P.hit("illegal_into_wall" if (0 <= nr < P.params["rows"] and 0 <= nc < P.params["cols"]) else "illegal_out_of_grid")
     if _agent(S2) != _agent(S):
         out.append(f"illegal_agent_stays: agent moved from {_agent(S)} to {_agent(S2)} on an illegal action {int(a)}")
     if not np.array_equal(S2["walls"], S["walls"]) or _target(S2) != _target(S):
@@ -124,6 +127,8 @@ def physical(P, S_prev, a, S):
             out.append(f"{name}_in_grid: {name} at {(r, c)} outside the {R}x{C} maze")
         elif bool(w[r, c]):
             out.append(f"{name}_not_on_wall: {name} at {(r, c)} is inside a wall")
+        elif name == "agent" and (r == R - 1 or c == C - 1):
+            P.hit("agent_in_last_row" if r == R - 1 else "agent_in_last_col")
     if S_prev is not None:
         P.hit("world_constant")
         if S_prev["walls"].shape != w.shape or not np.array_equal(S_prev["walls"], w):
